@@ -191,7 +191,7 @@ func main() {
 		}
 	}
 	sort.Slice(hs, func(i, j int) bool { return hs[i].Name < hs[j].Name })
-	nb := &nativeBuild{root: root, names: names}
+	nb := &nativeBuild{root: root, names: names, race: cfg.Prop == "C17"}
 	defer nb.cleanup()
 
 	if *replayPath != "" {
